@@ -4,51 +4,80 @@
    `check_sound` proves, with the logic of StackLogic.v, that an expression that checks never drives
    the real actions (Actions.exec_action) into a crash site.  The checker is evaluated on the grammar
    regenerated from jsonpath.peg (StackRules.v). *)
-From JP Require Import Peg Text Tree Actions PegFacts ParseFacts ErrPos StackLogic.
+From JP Require Import Peg Text Tree Actions Eval WF PegFacts ParseFacts ErrPos StackLogic TreeWf.
 From Coq Require Import Lia.
 Open Scope list_scope.
+Open Scope nat_scope.
 
-Inductive ity := TNode | TRooted | TUnion | TStr | TIdx | TSubs | TQuery | TPQ | TBool | TLit | TCP.
+Inductive ity := TNode | TRooted | TRootedH | TUnion | TStr | TIdx | TSubs | TQuery | TQueryRaw | TPQ | TBool | TLit | TCP.
 Scheme Equality for ity.
 
 Definition rootedb (n : node) : bool :=
   match node_kind (innermost n) with KRoot | KCurrent => true | _ => false end.
 Definition scalarb (v : value) : bool :=
   match v with VNum _ | VBool _ | VStr _ | VNull => true | _ => false end.
+
+(* a node on the parameter stack: well formed, value-group flags consistent with the node kinds *)
+Definition nwf (n : node) : bool := wf_node n && vgc n.
+(* a comparison operand: the literal flag agrees with the kind of operand, paths are single-valued *)
+Definition cpwf (p : cparam) : bool :=
+  match p with
+  | CP (PqLit v) lit => lit && scalarb v
+  | CP (PqRoot n) lit => lit && wf_node n && single_chain n
+  | CP (PqCur n) lit => negb lit && wf_node n && single_chain n
+  end.
 Definition cp_ok (p : cparam) : bool := match p with CP (PqLit v) _ => scalarb v | _ => true end.
+Definition rawcmp (l r : cparam) : bool := cpwf l && cpwf r && Nat.leb (rank l) (rank r).
+(* a comparison as the comparator rule leaves it: possibly `@ op @`, which the next action rejects *)
+Definition rawq (q : query) : bool :=
+  wf_query q ||
+  match q with
+  | QCmp l r _ => rawcmp l r
+  | QNot (QCmp l r _) => rawcmp l r
+  | _ => false
+  end.
+Definition pqwf (p : pquery) : bool :=
+  match p with PqCur n | PqRoot n => nwf n && hvg n | PqLit _ => false end.
 
 Definition has_ty (x : item) (t : ity) : bool :=
   match t, x with
-  | TNode, INode _ => true
-  | TRooted, INode n => rootedb n
-  | TUnion, INode (Node (KUnion _) _ _) => true
+  | TNode, INode n => nwf n
+  | TRooted, INode n => nwf n && rootedb n
+  | TRootedH, INode n => nwf n && rootedb n && hvg n
+  | TUnion, INode (Node (KUnion subs) b nx) => nwf (Node (KUnion subs) b nx)
   | TStr, IStr _ => true
-  | TIdx, IIdx _ => true
-  | TSubs, IIdx _ => true
-  | TSubs, ISub _ => true
-  | TQuery, IQuery _ => true
-  | TPQ, IPQ (PqCur _) => true
-  | TPQ, IPQ (PqRoot _) => true
+  | TIdx, IIdx i => idx_okb i
+  | TSubs, IIdx i => idx_okb i
+  | TSubs, ISub s => sub_okb s
+  | TQuery, IQuery q => wf_query q
+  | TQueryRaw, IQuery q => rawq q
+  | TPQ, IPQ p => pqwf p
   | TBool, IBool _ => true
   | TLit, INum _ => true
   | TLit, IBool _ => true
   | TLit, IStr _ => true
   | TLit, INil => true
-  | TCP, ICParam p => cp_ok p
+  | TCP, ICParam p => cpwf p
   | _, _ => false
   end.
 
 Definition subty (a b : ity) : bool :=
   ity_beq a b ||
   match a, b with
-  | TRooted, TNode | TUnion, TNode | TIdx, TSubs => true
+  | TRooted, TNode | TRootedH, TNode | TRootedH, TRooted | TUnion, TNode | TIdx, TSubs | TQuery, TQueryRaw => true
   | _, _ => false
   end.
 
 Lemma has_ty_sub x a b : has_ty x a = true -> subty a b = true -> has_ty x b = true.
 Proof.
   destruct a, b; cbn [subty ity_beq orb]; intros H Hs; try discriminate; try exact H;
-    destruct x; try discriminate; try reflexivity.
+    destruct x; try discriminate; cbn [has_ty] in *.
+  - apply andb_true_iff in H. apply H.
+  - apply andb_true_iff in H. destruct H as [H _]. apply andb_true_iff in H. apply H.
+  - apply andb_true_iff in H. apply H.
+  - destruct n as [k bb nx]. destruct k; try discriminate. exact H.
+  - exact H.
+  - unfold rawq. rewrite H. reflexivity.
 Qed.
 
 Definition lub (a b : ity) : option ity :=
@@ -100,15 +129,117 @@ Definition sig (n : nat) : option (list ity * list ity) :=
   | 20 | 21 => Some ([], [TIdx])
   | 23 => Some ([TQuery], [TNode])
   | 24 | 25 => Some ([TQuery; TQuery], [TQuery])
-  | 26 => Some ([TQuery], [TQuery])
+  | 26 => Some ([TQueryRaw], [TQuery])
   | 27 => Some ([TBool; TPQ], [TQuery])
-  | 28 | 29 | 30 | 31 | 32 | 33 => Some ([TCP; TCP], [TQuery])
+  | 28 | 29 | 30 | 31 | 32 | 33 => Some ([TCP; TCP], [TQueryRaw])
   | 34 => Some ([TCP], [TQuery])
   | 35 | 36 => Some ([TLit], [TCP])
-  | 37 => Some ([TBool; TPQ], [TCP])
   | 40 | 41 | 42 | 43 | 44 | 45 => Some ([], [TLit])
   | _ => None
   end.
+
+
+(* ---------- facts the action proofs use ---------- *)
+Fixpoint wf_nodes_snoc (ids : nodes) (x : node) : wf_nodes (nodes_snoc ids x) = wf_nodes ids && wf_node x.
+Proof.
+  destruct ids as [|i r]; cbn [nodes_snoc wf_nodes].
+  - rewrite andb_true_r. reflexivity.
+  - rewrite wf_nodes_snoc, andb_assoc. reflexivity.
+Qed.
+Lemma atoi_in64 cps z : atoi cps = Some z -> in64b z = true.
+Proof.
+  unfold atoi. destruct (match cps with c :: r => _ | [] => _ end) as [neg ds].
+  destruct ds; [discriminate|]. destruct (digits_val _ _) as [v|]; [|discriminate].
+  destruct (in64b (if neg then (- v)%Z else v)) eqn:E; [|discriminate]. intros H. inversion H; subst. exact E.
+Qed.
+Lemma sub_okb_mk_slice a b c : idx_okb a = true -> idx_okb b = true -> idx_okb c = true -> sub_okb (mk_slice a b c) = true.
+Proof.
+  intros Ha Hb Hc. unfold mk_slice.
+  assert (Hs : forall sp', idx_okb sp' = true -> (omitted sp' = true -> number sp' = 1%Z) ->
+               sub_okb (if (number sp' >=? 0)%Z then SubSlicePos a b sp' else SubSliceNeg a b sp') = true).
+  { intros sp' Hsp Hom. destruct (number sp' >=? 0)%Z eqn:En; cbn [sub_okb]; rewrite Ha, Hb, Hsp, En; cbn [andb negb].
+    - destruct (omitted sp') eqn:Eo; [rewrite (Hom eq_refl); reflexivity|reflexivity].
+    - destruct (omitted sp') eqn:Eo; [|reflexivity]. rewrite (Hom eq_refl) in En. discriminate. }
+  apply Hs.
+  - destruct (omitted c); [reflexivity|exact Hc].
+  - destruct (omitted c) eqn:Eo; [reflexivity|]. intros H. cbn in H. congruence.
+Qed.
+Lemma sub_single_or_group s : match s with SubIndex _ => true | _ => false end || sub_value_group s = true.
+Proof. destruct s; reflexivity. Qed.
+
+Definition two_cur (q : query) : bool :=
+  match (match q with QNot q' => q' | _ => q end) with
+  | QCmp (CP (PqCur _) _) (CP (PqCur _) _) _ => true
+  | _ => false
+  end.
+Lemma rawcmp_wf l r c : rawcmp l r = true -> two_cur (QCmp l r c) = false -> wf_query (QCmp l r c) = true.
+Proof.
+  destruct l as [lp ll], r as [rp rl]. unfold rawcmp. intros H Ht.
+  apply andb_true_iff in H. destruct H as [H Hr]. apply andb_true_iff in H. destruct H as [Hl Hrr].
+  apply Nat.leb_le in Hr.
+  destruct lp as [lv|ln|ln], rp as [rv|rn|rn]; cbn [cpwf wf_query wf_pquery two_cur rank] in *;
+    repeat match goal with
+           | H : _ && _ = true |- _ => apply andb_true_iff in H; destruct H
+           | H : negb ?x = true |- _ => apply negb_true_iff in H; subst x
+           | H : ?x = true |- _ => is_var x; subst x
+           end; cbn [rank] in Hr; try lia; try discriminate;
+    repeat (apply andb_true_iff; split); try assumption; reflexivity.
+Qed.
+Lemma rawq_wf q : rawq q = true -> two_cur q = false -> wf_query q = true.
+Proof.
+  unfold rawq. intros H Ht. apply orb_true_iff in H. destruct H as [H|H]; [exact H|].
+  destruct q as [a b|a b|a|l r c|p]; try discriminate.
+  - destruct a as [| | |l r c|]; try discriminate. cbn [wf_query]. apply (rawcmp_wf l r c H Ht).
+  - apply rawcmp_wf; assumption.
+Qed.
+Lemma rawq_cmp l r c : cpwf l = true -> cpwf r = true -> rank l <= rank r -> rawq (QCmp l r c) = true.
+Proof. intros Hl Hr Hk. unfold rawq, rawcmp. rewrite Hl, Hr. apply Nat.leb_le in Hk. rewrite Hk. apply orb_true_r. Qed.
+Lemma rawq_not_cmp l r c : cpwf l = true -> cpwf r = true -> rank l <= rank r -> rawq (QNot (QCmp l r c)) = true.
+Proof. intros Hl Hr Hk. unfold rawq, rawcmp. rewrite Hl, Hr. apply Nat.leb_le in Hk. rewrite Hk. apply orb_true_r. Qed.
+
+Lemma compare_ord_raw c l r st : cpwf l = true -> cpwf r = true ->
+  exists q, push_compare_ord c l r st = push (IQuery q) st /\ rawq q = true.
+Proof.
+  intros Hl Hr. unfold push_compare_ord, swap_required. destruct (Nat.ltb (rank r) (rank l)) eqn:E.
+  - apply Nat.ltb_lt in E. eexists. split; [reflexivity|]. apply rawq_cmp; [assumption|assumption|lia].
+  - apply Nat.ltb_ge in E. eexists. split; [reflexivity|]. apply rawq_cmp; assumption.
+Qed.
+Lemma compare_eq_raw l r st : cpwf l = true -> cpwf r = true ->
+  exists q, push_compare_eq l r st = push (IQuery q) st /\ rawq q = true /\ rawq (QNot q) = true.
+Proof.
+  intros Hl Hr. unfold push_compare_eq, swap_required.
+  assert (Hgen : forall a b, cpwf a = true -> cpwf b = true -> rank a <= rank b ->
+            exists q, match b with
+                      | CP (PqLit v) _ =>
+                          match v with
+                          | VNum _ => push (IQuery (QCmp a b (CDirectEq VdNumeric))) st
+                          | VBool _ => push (IQuery (QCmp a b (CDirectEq VdBool))) st
+                          | VStr _ => push (IQuery (QCmp a b (CDirectEq VdString))) st
+                          | VNull => push (IQuery (QCmp a b (CDirectEq VdNil))) st
+                          | _ => st
+                          end
+                      | _ => push (IQuery (QCmp a b CDeepEq)) st
+                      end = push (IQuery q) st /\ rawq q = true /\ rawq (QNot q) = true).
+  { intros a b Ha Hb Hk. destruct b as [bp bl] eqn:Eb. destruct bp as [v|n|n].
+    - cbn [cpwf] in Hb. apply andb_true_iff in Hb. destruct Hb as [Hb1 Hb2].
+      destruct v; try discriminate Hb2; (eexists; split; [reflexivity|split; [apply rawq_cmp|apply rawq_not_cmp]; try assumption; cbn [cpwf]; rewrite Hb1; reflexivity]).
+    - eexists. split; [reflexivity|split; [apply rawq_cmp|apply rawq_not_cmp]; assumption].
+    - eexists. split; [reflexivity|split; [apply rawq_cmp|apply rawq_not_cmp]; assumption]. }
+  destruct (Nat.ltb (rank r) (rank l)) eqn:E.
+  - apply Nat.ltb_lt in E. apply Hgen; [assumption|assumption|lia].
+  - apply Nat.ltb_ge in E. apply Hgen; assumption.
+Qed.
+
+Lemma act26_eq (q : query) (bg : nat) (st1 : pstate) :
+  match (match IQuery q with IQuery (QNot q') => Some q' | IQuery q' => Some q' | _ => None end) with
+  | Some (QCmp (CP (PqCur _) _) (CP (PqCur _) _) _) => AErr (ESyntax bg RTwoCurrent)
+  | _ => AOk (push (IQuery q) st1)
+  end = if two_cur q then AErr (ESyntax bg RTwoCurrent) else AOk (push (IQuery q) st1).
+Proof.
+  destruct q as [x y|x y|a|[lp ll] [rp rl] c|p]; try reflexivity.
+  - destruct a as [x y|x y|a'|[lp ll] [rp rl] c|p]; try reflexivity. destruct lp, rp; reflexivity.
+  - destruct lp, rp; reflexivity.
+Qed.
 
 Section ActSound.
   Variable cfg : config.
@@ -128,17 +259,53 @@ Section ActSound.
            | H : has_ty ?x _ = true |- _ => is_var x; destruct x; try discriminate H
            end.
   Ltac pops := repeat (rewrite pop_G; cbn [abind]).
+  Ltac norm_in H :=
+    cbn [has_ty wf_node wf_nodes wf_query wf_pquery vgc single_kind node_kind node_basic vgroup
+         cpwf scalarb negb andb orb forallb] in H.
+  Ltac unpack :=
+    repeat match goal with
+           | H : has_ty _ _ = true |- _ => progress norm_in H
+           | H : nwf _ = true |- _ => unfold nwf in H
+           | H : pqwf _ = true |- _ => unfold pqwf in H
+           | H : wf_node (Node _ _ _) = true |- _ => progress norm_in H
+           | H : vgc (Node _ _ _) = true |- _ => progress norm_in H
+           | H : cpwf (CP _ _) = true |- _ => progress norm_in H
+           | H : _ && _ = true |- _ => apply andb_true_iff in H; destruct H
+           | H : true = true |- _ => clear H
+           | H : false = true |- _ => discriminate H
+           | H : negb true = true |- _ => discriminate H
+           | H : ?x = true |- _ => is_var x; subst x
+           | H : ?x = false |- _ => is_var x; subst x
+           end.
+  Ltac close_goal :=
+    first
+      [ assumption | reflexivity
+      | apply orb_true_r
+      | apply sub_single_or_group
+      | apply sub_okb_mk_slice; assumption
+      | match goal with
+        | H : atoi _ = Some ?z |- _ => exact (atoi_in64 _ _ H)
+        | H : idx_okb ?i = true |- sub_okb (SubIndex (number ?i)) = true => exact H
+        end ].
+  Ltac inv_goal :=
+    unpack;
+    cbn [has_ty]; unfold nwf, pqwf;
+    cbn [wf_node wf_nodes wf_query wf_pquery vgc single_kind node_kind node_basic vgroup mk_basic set_vgroup set_text
+         cpwf scalarb negb andb orb forallb];
+    rewrite ?wf_nodes_snoc, ?forallb_app;
+    cbn [wf_node wf_nodes forallb sub_okb andb];
+    repeat (first [ close_goal | (apply andb_true_iff; split) ]).
   Ltac fin :=
     repeat first [ rewrite push_G | progress cbn [wpa abind] ];
     try exact I;
-    try (eexists; split; [|reflexivity]; repeat constructor; try assumption; try reflexivity);
+    try (eexists; split; [|reflexivity]; repeat (constructor; [inv_goal|]); try constructor);
     try congruence.
 
   Ltac prep :=
     repeat match goal with
-           | H : has_ty (INode (Node ?k _ _)) TUnion = true |- _ => is_var k; destruct k; try discriminate H; clear H
-           | H : has_ty (IPQ ?p) TPQ = true |- _ => is_var p; destruct p; try discriminate H; clear H
-           | H : has_ty (ICParam (CP (PqLit ?v) _)) TCP = true |- _ => is_var v; destruct v; try discriminate H; clear H
+           | H : has_ty (INode (Node ?k _ _)) TUnion = true |- _ => is_var k; destruct k; try discriminate H
+           | H : has_ty (IPQ ?p) TPQ = true |- _ => is_var p; destruct p; try discriminate H
+           | H : has_ty (ICParam (CP (PqLit ?v) ?l)) TCP = true |- _ => is_var v; destruct v; try (cbn [has_ty cpwf scalarb] in H; rewrite andb_false_r in H; discriminate H)
            | n : node |- _ => destruct n
            | p : cparam |- _ => destruct p
            | H : has_ty (ICParam (CP ?p _)) TCP = true |- _ => is_var p; destruct p
@@ -176,9 +343,52 @@ Section ActSound.
         (fun st' => exists vout, typed vout out /\ st' = mk (ps ++ rev vout) sv pr).
   Proof.
     intros Hs Ht Hc.
-    do 46 (destruct an as [|an];
-           [cbn [sig] in Hs; try discriminate Hs; inversion Hs; subst req out; clear Hs; inv_typed; kill_items; prep;
-            try (destruct (first_byte_nonempty cps (Hc eq_refl)) as [fb Hfb]); solve [act_tac]|]).
+    destruct an as [|an]. { cbn [sig] in Hs; try discriminate Hs; inversion Hs; subst req out; clear Hs; inv_typed; kill_items; prep; unpack; try (destruct (first_byte_nonempty cps (Hc eq_refl)) as [fb Hfb]); solve [act_tac]. }
+    destruct an as [|an]. { cbn [sig] in Hs; try discriminate Hs; inversion Hs; subst req out; clear Hs; inv_typed; kill_items; prep; unpack; try (destruct (first_byte_nonempty cps (Hc eq_refl)) as [fb Hfb]); solve [act_tac]. }
+    destruct an as [|an]. { cbn [sig] in Hs; try discriminate Hs; inversion Hs; subst req out; clear Hs; inv_typed; kill_items; prep; unpack; try (destruct (first_byte_nonempty cps (Hc eq_refl)) as [fb Hfb]); solve [act_tac]. }
+    destruct an as [|an]. { cbn [sig] in Hs; try discriminate Hs; inversion Hs; subst req out; clear Hs; inv_typed; kill_items; prep; unpack; try (destruct (first_byte_nonempty cps (Hc eq_refl)) as [fb Hfb]); solve [act_tac]. }
+    destruct an as [|an]. { cbn [sig] in Hs; try discriminate Hs; inversion Hs; subst req out; clear Hs; inv_typed; kill_items; prep; unpack; try (destruct (first_byte_nonempty cps (Hc eq_refl)) as [fb Hfb]); solve [act_tac]. }
+    destruct an as [|an]. { cbn [sig] in Hs; try discriminate Hs; inversion Hs; subst req out; clear Hs; inv_typed; kill_items; prep; unpack; try (destruct (first_byte_nonempty cps (Hc eq_refl)) as [fb Hfb]); solve [act_tac]. }
+    destruct an as [|an]. { cbn [sig] in Hs; try discriminate Hs; inversion Hs; subst req out; clear Hs; inv_typed; kill_items; prep; unpack; try (destruct (first_byte_nonempty cps (Hc eq_refl)) as [fb Hfb]); solve [act_tac]. }
+    destruct an as [|an]. { cbn [sig] in Hs; try discriminate Hs; inversion Hs; subst req out; clear Hs; inv_typed; kill_items; prep; unpack; try (destruct (first_byte_nonempty cps (Hc eq_refl)) as [fb Hfb]); solve [act_tac]. }
+    destruct an as [|an]. { cbn [sig] in Hs; try discriminate Hs; inversion Hs; subst req out; clear Hs; inv_typed; kill_items; prep; unpack; try (destruct (first_byte_nonempty cps (Hc eq_refl)) as [fb Hfb]); solve [act_tac]. }
+    destruct an as [|an]. { cbn [sig] in Hs; try discriminate Hs; inversion Hs; subst req out; clear Hs; inv_typed; kill_items; prep; unpack; try (destruct (first_byte_nonempty cps (Hc eq_refl)) as [fb Hfb]); solve [act_tac]. }
+    destruct an as [|an]. { cbn [sig] in Hs; try discriminate Hs; inversion Hs; subst req out; clear Hs; inv_typed; kill_items; prep; unpack; try (destruct (first_byte_nonempty cps (Hc eq_refl)) as [fb Hfb]); solve [act_tac]. }
+    destruct an as [|an]. { cbn [sig] in Hs; try discriminate Hs; inversion Hs; subst req out; clear Hs; inv_typed; kill_items; prep; unpack; try (destruct (first_byte_nonempty cps (Hc eq_refl)) as [fb Hfb]); solve [act_tac]. }
+    destruct an as [|an]. { cbn [sig] in Hs; try discriminate Hs; inversion Hs; subst req out; clear Hs; inv_typed; kill_items; prep; unpack; try (destruct (first_byte_nonempty cps (Hc eq_refl)) as [fb Hfb]); solve [act_tac]. }
+    destruct an as [|an]. { cbn [sig] in Hs; try discriminate Hs; inversion Hs; subst req out; clear Hs; inv_typed; kill_items; prep; unpack; try (destruct (first_byte_nonempty cps (Hc eq_refl)) as [fb Hfb]); solve [act_tac]. }
+    destruct an as [|an]. { cbn [sig] in Hs; try discriminate Hs; inversion Hs; subst req out; clear Hs; inv_typed; kill_items; prep; unpack; try (destruct (first_byte_nonempty cps (Hc eq_refl)) as [fb Hfb]); solve [act_tac]. }
+    destruct an as [|an]. { cbn [sig] in Hs; try discriminate Hs; inversion Hs; subst req out; clear Hs; inv_typed; kill_items; prep; unpack; try (destruct (first_byte_nonempty cps (Hc eq_refl)) as [fb Hfb]); solve [act_tac]. }
+    destruct an as [|an]. { cbn [sig] in Hs; try discriminate Hs; inversion Hs; subst req out; clear Hs; inv_typed; kill_items; prep; unpack; try (destruct (first_byte_nonempty cps (Hc eq_refl)) as [fb Hfb]); solve [act_tac]. }
+    destruct an as [|an]. { cbn [sig] in Hs; try discriminate Hs; inversion Hs; subst req out; clear Hs; inv_typed; kill_items; prep; unpack; try (destruct (first_byte_nonempty cps (Hc eq_refl)) as [fb Hfb]); solve [act_tac]. }
+    destruct an as [|an]. { cbn [sig] in Hs; try discriminate Hs; inversion Hs; subst req out; clear Hs; inv_typed; kill_items; prep; unpack; try (destruct (first_byte_nonempty cps (Hc eq_refl)) as [fb Hfb]); solve [act_tac]. }
+    destruct an as [|an]. { cbn [sig] in Hs; try discriminate Hs; inversion Hs; subst req out; clear Hs; inv_typed; kill_items; prep; unpack; try (destruct (first_byte_nonempty cps (Hc eq_refl)) as [fb Hfb]); solve [act_tac]. }
+    destruct an as [|an]. { cbn [sig] in Hs; try discriminate Hs; inversion Hs; subst req out; clear Hs; inv_typed; kill_items; prep; unpack; try (destruct (first_byte_nonempty cps (Hc eq_refl)) as [fb Hfb]); solve [act_tac]. }
+    destruct an as [|an]. { cbn [sig] in Hs; try discriminate Hs; inversion Hs; subst req out; clear Hs; inv_typed; kill_items; prep; unpack; try (destruct (first_byte_nonempty cps (Hc eq_refl)) as [fb Hfb]); solve [act_tac]. }
+    destruct an as [|an]. { cbn [sig] in Hs; try discriminate Hs; inversion Hs; subst req out; clear Hs; inv_typed; kill_items; prep; unpack; try (destruct (first_byte_nonempty cps (Hc eq_refl)) as [fb Hfb]); solve [act_tac]. }
+    destruct an as [|an]. { cbn [sig] in Hs; try discriminate Hs; inversion Hs; subst req out; clear Hs; inv_typed; kill_items; prep; unpack; try (destruct (first_byte_nonempty cps (Hc eq_refl)) as [fb Hfb]); solve [act_tac]. }
+    destruct an as [|an]. { cbn [sig] in Hs; try discriminate Hs; inversion Hs; subst req out; clear Hs; inv_typed; kill_items; prep; unpack; try (destruct (first_byte_nonempty cps (Hc eq_refl)) as [fb Hfb]); solve [act_tac]. }
+    destruct an as [|an]. { cbn [sig] in Hs; try discriminate Hs; inversion Hs; subst req out; clear Hs; inv_typed; kill_items; prep; unpack; try (destruct (first_byte_nonempty cps (Hc eq_refl)) as [fb Hfb]); solve [act_tac]. }
+    destruct an as [|an]. { cbn [sig] in Hs; try discriminate Hs; inversion Hs; subst req out; clear Hs; inv_typed; kill_items; cbn [has_ty] in *; cbn [Actions.exec_action]; rewrite pop_G; cbn [abind]; rewrite act26_eq; match goal with |- context [two_cur ?q] => destruct (two_cur q) eqn:Et end; [exact I|]; cbn [wpa]; rewrite push_G; exists [IQuery q]; split; [constructor; [cbn [has_ty]; apply rawq_wf; assumption|constructor]|reflexivity]. }
+    destruct an as [|an]. { cbn [sig] in Hs; try discriminate Hs; inversion Hs; subst req out; clear Hs; inv_typed; kill_items; prep; unpack; try (destruct (first_byte_nonempty cps (Hc eq_refl)) as [fb Hfb]); solve [act_tac]. }
+    destruct an as [|an]. { cbn [sig] in Hs; try discriminate Hs; inversion Hs; subst req out; clear Hs; inv_typed; kill_items; cbn [has_ty] in *; cbn [Actions.exec_action]; unfold two_operands, pop_cparam; repeat (rewrite pop_G; cbn [abind]); match goal with |- context [push_compare_eq ?l ?r ?st] => destruct (compare_eq_raw l r st ltac:(assumption) ltac:(assumption)) as (q & E & R1 & R2); rewrite E end; cbn [abind wpa]; rewrite push_G; exists [IQuery q]; split; [constructor; [exact R1|constructor]|reflexivity]. }
+    destruct an as [|an]. { cbn [sig] in Hs; try discriminate Hs; inversion Hs; subst req out; clear Hs; inv_typed; kill_items; cbn [has_ty] in *; cbn [Actions.exec_action]; unfold two_operands, pop_cparam; repeat (rewrite pop_G; cbn [abind]); match goal with |- context [push_compare_eq ?l ?r ?st] => destruct (compare_eq_raw l r st ltac:(assumption) ltac:(assumption)) as (q & E & R1 & R2); rewrite E end; unfold pop_query; rewrite push_G, pop_G; cbn [abind wpa]; rewrite push_G; exists [IQuery (QNot q)]; split; [constructor; [exact R2|constructor]|reflexivity]. }
+    destruct an as [|an]. { cbn [sig] in Hs; try discriminate Hs; inversion Hs; subst req out; clear Hs; inv_typed; kill_items; cbn [has_ty] in *; cbn [Actions.exec_action]; unfold two_operands, pop_cparam; repeat (rewrite pop_G; cbn [abind]); match goal with |- context [push_compare_ord ?c ?l ?r ?st] => destruct (compare_ord_raw c l r st ltac:(assumption) ltac:(assumption)) as (q & E & R1); rewrite E end; cbn [abind wpa]; rewrite push_G; exists [IQuery q]; split; [constructor; [exact R1|constructor]|reflexivity]. }
+    destruct an as [|an]. { cbn [sig] in Hs; try discriminate Hs; inversion Hs; subst req out; clear Hs; inv_typed; kill_items; cbn [has_ty] in *; cbn [Actions.exec_action]; unfold two_operands, pop_cparam; repeat (rewrite pop_G; cbn [abind]); match goal with |- context [push_compare_ord ?c ?l ?r ?st] => destruct (compare_ord_raw c l r st ltac:(assumption) ltac:(assumption)) as (q & E & R1); rewrite E end; cbn [abind wpa]; rewrite push_G; exists [IQuery q]; split; [constructor; [exact R1|constructor]|reflexivity]. }
+    destruct an as [|an]. { cbn [sig] in Hs; try discriminate Hs; inversion Hs; subst req out; clear Hs; inv_typed; kill_items; cbn [has_ty] in *; cbn [Actions.exec_action]; unfold two_operands, pop_cparam; repeat (rewrite pop_G; cbn [abind]); match goal with |- context [push_compare_ord ?c ?l ?r ?st] => destruct (compare_ord_raw c l r st ltac:(assumption) ltac:(assumption)) as (q & E & R1); rewrite E end; cbn [abind wpa]; rewrite push_G; exists [IQuery q]; split; [constructor; [exact R1|constructor]|reflexivity]. }
+    destruct an as [|an]. { cbn [sig] in Hs; try discriminate Hs; inversion Hs; subst req out; clear Hs; inv_typed; kill_items; cbn [has_ty] in *; cbn [Actions.exec_action]; unfold two_operands, pop_cparam; repeat (rewrite pop_G; cbn [abind]); match goal with |- context [push_compare_ord ?c ?l ?r ?st] => destruct (compare_ord_raw c l r st ltac:(assumption) ltac:(assumption)) as (q & E & R1); rewrite E end; cbn [abind wpa]; rewrite push_G; exists [IQuery q]; split; [constructor; [exact R1|constructor]|reflexivity]. }
+    destruct an as [|an]. { cbn [sig] in Hs; try discriminate Hs; inversion Hs; subst req out; clear Hs; inv_typed; kill_items; prep; unpack; try (destruct (first_byte_nonempty cps (Hc eq_refl)) as [fb Hfb]); solve [act_tac]. }
+    destruct an as [|an]. { cbn [sig] in Hs; try discriminate Hs; inversion Hs; subst req out; clear Hs; inv_typed; kill_items; prep; unpack; try (destruct (first_byte_nonempty cps (Hc eq_refl)) as [fb Hfb]); solve [act_tac]. }
+    destruct an as [|an]. { cbn [sig] in Hs; try discriminate Hs; inversion Hs; subst req out; clear Hs; inv_typed; kill_items; prep; unpack; try (destruct (first_byte_nonempty cps (Hc eq_refl)) as [fb Hfb]); solve [act_tac]. }
+    destruct an as [|an]. { cbn [sig] in Hs; try discriminate Hs; inversion Hs; subst req out; clear Hs; inv_typed; kill_items; prep; unpack; try (destruct (first_byte_nonempty cps (Hc eq_refl)) as [fb Hfb]); solve [act_tac]. }
+    destruct an as [|an]. { cbn [sig] in Hs; try discriminate Hs; inversion Hs; subst req out; clear Hs; inv_typed; kill_items; prep; unpack; try (destruct (first_byte_nonempty cps (Hc eq_refl)) as [fb Hfb]); solve [act_tac]. }
+    destruct an as [|an]. { cbn [sig] in Hs; try discriminate Hs; inversion Hs; subst req out; clear Hs; inv_typed; kill_items; prep; unpack; try (destruct (first_byte_nonempty cps (Hc eq_refl)) as [fb Hfb]); solve [act_tac]. }
+    destruct an as [|an]. { cbn [sig] in Hs; try discriminate Hs; inversion Hs; subst req out; clear Hs; inv_typed; kill_items; prep; unpack; try (destruct (first_byte_nonempty cps (Hc eq_refl)) as [fb Hfb]); solve [act_tac]. }
+    destruct an as [|an]. { cbn [sig] in Hs; try discriminate Hs; inversion Hs; subst req out; clear Hs; inv_typed; kill_items; prep; unpack; try (destruct (first_byte_nonempty cps (Hc eq_refl)) as [fb Hfb]); solve [act_tac]. }
+    destruct an as [|an]. { cbn [sig] in Hs; try discriminate Hs; inversion Hs; subst req out; clear Hs; inv_typed; kill_items; prep; unpack; try (destruct (first_byte_nonempty cps (Hc eq_refl)) as [fb Hfb]); solve [act_tac]. }
+    destruct an as [|an]. { cbn [sig] in Hs; try discriminate Hs; inversion Hs; subst req out; clear Hs; inv_typed; kill_items; prep; unpack; try (destruct (first_byte_nonempty cps (Hc eq_refl)) as [fb Hfb]); solve [act_tac]. }
+    destruct an as [|an]. { cbn [sig] in Hs; try discriminate Hs; inversion Hs; subst req out; clear Hs; inv_typed; kill_items; prep; unpack; try (destruct (first_byte_nonempty cps (Hc eq_refl)) as [fb Hfb]); solve [act_tac]. }
+    destruct an as [|an]. { cbn [sig] in Hs; try discriminate Hs; inversion Hs; subst req out; clear Hs; inv_typed; kill_items; prep; unpack; try (destruct (first_byte_nonempty cps (Hc eq_refl)) as [fb Hfb]); solve [act_tac]. }
     cbn [sig] in Hs; discriminate Hs.
   Qed.
 End ActSound.
